@@ -59,10 +59,14 @@ def tables():
         from pyrtcm.rtcmtypes_get_igs import RTCM_PAYLOADS_GET_IGS
         from pyrtcm.rtcmtypes_get_msm import RTCM_PAYLOADS_GET_MSM
 
-        _T["F"] = RTCM_DATA_FIELDS
-        _T["GET"] = RTCM_PAYLOADS_GET
-        _T["MSM"] = RTCM_PAYLOADS_GET_MSM
-        _T["IGS"] = RTCM_PAYLOADS_GET_IGS
+        import copy
+
+        # deep copies taken when the harness first looks at the tables (before it has parsed anything): the
+        # interpreter must describe the definitions as shipped, also if the library were to write into them later
+        _T["F"] = copy.deepcopy(RTCM_DATA_FIELDS)
+        _T["GET"] = copy.deepcopy(RTCM_PAYLOADS_GET)
+        _T["MSM"] = copy.deepcopy(RTCM_PAYLOADS_GET_MSM)
+        _T["IGS"] = copy.deepcopy(RTCM_PAYLOADS_GET_IGS)
     return _T
 
 
